@@ -58,9 +58,13 @@ def make_breaker(cfg, clock):
               recovery_timeout_s=cfg["recovery"] * TAU, clock=clock)
     if cfg.get("trip_on") is not None:
         kw["trip_on"] = {KL[k] for k in cfg["trip_on"]}
+        if cfg.get("trip_iter"):
+            kw["trip_on"] = (KL[k] for k in cfg["trip_on"])   # can be walked once
     if cfg.get("class_thresholds"):
         kw["class_thresholds"] = {KL[k]: v for k, v in cfg["class_thresholds"].items()}
     b = CircuitBreaker(**kw)
+    if cfg.get("trip_iter"):
+        kw.pop("trip_on")
     _poison(kw)
     return b
 
